@@ -396,6 +396,537 @@ func init() {
 		x.defNat("hostAssignmentsBeforeAddHeaders", count("host", true))
 		x.defNat("requestIDSetsBeforeAddHeaders", count("reqid", true))
 		x.defStrList("addHeadersArgs", addArgs)
+
+		// ---- how each site reads the request before comparing with "websocket" (operand shape) ---------------
+		wsOperand := func(fd *ast.FuncDecl) []string {
+			set := map[string]bool{}
+			var shape func(c *walkCtx, e ast.Expr) string
+			shape = func(c *walkCtx, e ast.Expr) string {
+				switch v := e.(type) {
+				case *ast.CallExpr:
+					if sel, ok := v.Fun.(*ast.SelectorExpr); ok && isHeaderExpr(c, sel.X) && len(v.Args) == 1 {
+						return "hdr." + sel.Sel.Name + "(" + key(v.Args[0]) + ")"
+					}
+					if len(v.Args) == 1 {
+						return x.src(v.Fun) + "(" + shape(c, v.Args[0]) + ")"
+					}
+				case *ast.Ident:
+					return "var"
+				}
+				return "?"
+			}
+			locals := map[string]ast.Expr{}
+			resolve := func(c *walkCtx, e ast.Expr) string {
+				if id, ok := e.(*ast.Ident); ok {
+					if d, ok := locals[id.Name]; ok {
+						return shape(c, d)
+					}
+				}
+				return shape(c, e)
+			}
+			walk(fd, func(c *walkCtx, n ast.Node) {
+				switch v := n.(type) {
+				case *ast.AssignStmt:
+					if len(v.Lhs) == len(v.Rhs) {
+						for i, l := range v.Lhs {
+							if id, ok := l.(*ast.Ident); ok {
+								locals[id.Name] = v.Rhs[i]
+							}
+						}
+					}
+				case *ast.CallExpr:
+					if x.src(v.Fun) == "strings.EqualFold" && len(v.Args) == 2 {
+						for i, a := range v.Args {
+							if s, ok := x.strLit(a); ok && strings.EqualFold(s, "websocket") {
+								set[resolve(c, v.Args[1-i])] = true
+							}
+						}
+					}
+				case *ast.BinaryExpr:
+					if v.Op == token.EQL || v.Op == token.NEQ {
+						for _, p := range [][2]ast.Expr{{v.X, v.Y}, {v.Y, v.X}} {
+							if s, ok := x.strLit(p[1]); ok && strings.EqualFold(s, "websocket") {
+								set[resolve(c, p[0])] = true
+							}
+						}
+					}
+				}
+			})
+			var out []string
+			for k := range set {
+				out = append(out, k)
+			}
+			sort.Strings(out)
+			return out
+		}
+		x.defStrList("wsOperandAddHeaders", wsOperand(add))
+		x.defStrList("wsOperandScheme", wsOperand(sch))
+		x.defStrList("wsOperandServeHTTP", wsOperand(srv))
+
+		// =====================================================================================================
+		// OBLIGATIONS: what no stream can establish by running the code
+		// =====================================================================================================
+
+		// ---- (1) shared tables: package-level variables the header code reads, and every write to them ----------
+		pkgVars := map[string]bool{}
+		for _, f := range x.files(dir) {
+			for _, d := range f.Decls {
+				if gd, ok := d.(*ast.GenDecl); ok && gd.Tok == token.VAR {
+					for _, sp := range gd.Specs {
+						if vs, ok := sp.(*ast.ValueSpec); ok {
+							for _, n := range vs.Names {
+								pkgVars[n.Name] = true
+							}
+						}
+					}
+				}
+			}
+		}
+		readSet := map[string]bool{}
+		var goStmts, deferStmts uint64
+		for _, fd := range []*ast.FuncDecl{add, rsp} {
+			_, params, locals := x.LocalNames(fd)
+			shadow := map[string]bool{}
+			for _, n := range append(params, locals...) {
+				shadow[n] = true
+			}
+			walk(fd, func(c *walkCtx, n ast.Node) {
+				switch v := n.(type) {
+				case *ast.Ident:
+					if pkgVars[v.Name] && !shadow[v.Name] {
+						readSet[v.Name] = true
+					}
+				case *ast.GoStmt:
+					goStmts++
+				case *ast.DeferStmt:
+					deferStmts++
+				}
+			})
+		}
+		var reads []string
+		for n := range readSet {
+			reads = append(reads, n)
+		}
+		sort.Strings(reads)
+		var rootIdent func(e ast.Expr) string
+		rootIdent = func(e ast.Expr) string {
+			switch v := e.(type) {
+			case *ast.Ident:
+				return v.Name
+			case *ast.IndexExpr:
+				return rootIdent(v.X)
+			case *ast.SelectorExpr:
+				return rootIdent(v.X)
+			case *ast.StarExpr:
+				return rootIdent(v.X)
+			case *ast.ParenExpr:
+				return rootIdent(v.X)
+			case *ast.SliceExpr:
+				return rootIdent(v.X)
+			}
+			return ""
+		}
+		var tableWrites []string
+		for _, f := range x.files(dir) {
+			for _, d := range f.Decls {
+				fd, ok := d.(*ast.FuncDecl)
+				if !ok || fd.Body == nil {
+					continue
+				}
+				_, params, locals := x.LocalNames(fd)
+				shadow := map[string]bool{}
+				for _, n := range append(params, locals...) {
+					shadow[n] = true
+				}
+				hit := func(e ast.Expr) (string, bool) {
+					r := rootIdent(e)
+					return r, r != "" && readSet[r] && !shadow[r]
+				}
+				ast.Inspect(fd.Body, func(n ast.Node) bool {
+					switch v := n.(type) {
+					case *ast.AssignStmt:
+						for _, l := range v.Lhs {
+							if r, ok := hit(l); ok {
+								tableWrites = append(tableWrites, fd.Name.Name+":assign:"+r)
+							}
+						}
+					case *ast.IncDecStmt:
+						if r, ok := hit(v.X); ok {
+							tableWrites = append(tableWrites, fd.Name.Name+":incdec:"+r)
+						}
+					case *ast.UnaryExpr:
+						if v.Op == token.AND {
+							if r, ok := hit(v.X); ok {
+								tableWrites = append(tableWrites, fd.Name.Name+":addr:"+r)
+							}
+						}
+					case *ast.CallExpr:
+						// delete(table, k), copy(table, …), clear(table): builtins that mutate their first argument
+						if id, ok := v.Fun.(*ast.Ident); ok && (id.Name == "delete" || id.Name == "copy" || id.Name == "clear") && len(v.Args) > 0 {
+							if r, ok := hit(v.Args[0]); ok {
+								tableWrites = append(tableWrites, fd.Name.Name+":"+id.Name+":"+r)
+							}
+						}
+					}
+					return true
+				})
+			}
+		}
+		sort.Strings(tableWrites)
+		x.defStrList("sharedTablesRead", reads)
+		x.defStrList("sharedTableWrites", tableWrites)
+		x.defNat("headerCodeGoStmts", goStmts)
+		x.defNat("headerCodeDeferStmts", deferStmts)
+
+		// ---- (2) forwarders: the unexported constructors of forwarding handlers, who calls them, and where -----
+		// a forwarder constructor is an unexported package-level function of package proxy whose result is http.Handler
+		ctors := map[string]bool{}
+		for _, f := range x.files(dir) {
+			for _, d := range f.Decls {
+				fd, ok := d.(*ast.FuncDecl)
+				if !ok || fd.Recv != nil || ast.IsExported(fd.Name.Name) || fd.Type.Results == nil || len(fd.Type.Results.List) != 1 {
+					continue
+				}
+				if x.src(fd.Type.Results.List[0].Type) == "http.Handler" {
+					ctors[fd.Name.Name] = true
+				}
+			}
+		}
+		var ctorNames, ctorCallers []string
+		for n := range ctors {
+			ctorNames = append(ctorNames, n)
+		}
+		sort.Strings(ctorNames)
+		callerSet := map[string]bool{}
+		for _, f := range x.files(dir) {
+			for _, d := range f.Decls {
+				fd, ok := d.(*ast.FuncDecl)
+				if !ok || fd.Body == nil {
+					continue
+				}
+				who := fd.Name.Name
+				if fd.Recv != nil && len(fd.Recv.List) == 1 {
+					t := fd.Recv.List[0].Type
+					if st, ok := t.(*ast.StarExpr); ok {
+						t = st.X
+					}
+					who = x.src(t) + "." + who
+				}
+				ast.Inspect(fd.Body, func(n ast.Node) bool {
+					if id, ok := n.(*ast.Ident); ok && ctors[id.Name] {
+						callerSet[who] = true // called or taken as a value
+					}
+					return true
+				})
+			}
+		}
+		for n := range callerSet {
+			ctorCallers = append(ctorCallers, n)
+		}
+		sort.Strings(ctorCallers)
+		x.defStrList("forwarderConstructors", ctorNames)
+		x.defStrList("forwarderConstructorUsers", ctorCallers)
+		// inside ServeHTTP: addHeaders' error exit returns; constructors and the forwarding call come after addHeaders
+		var srvEvents []string // addHeaders | ctor | serve | return-in-error-branch
+		errBranchReturns := false
+		walk(srv, func(c *walkCtx, n ast.Node) {
+			switch v := n.(type) {
+			case *ast.IfStmt:
+				// if err := addHeaders(…); err != nil { …; return }
+				if as, ok := v.Init.(*ast.AssignStmt); ok && len(as.Rhs) == 1 {
+					if call, ok := as.Rhs[0].(*ast.CallExpr); ok {
+						if id, ok := call.Fun.(*ast.Ident); ok && id.Name == "addHeaders" && len(v.Body.List) > 0 {
+							if _, ok := v.Body.List[len(v.Body.List)-1].(*ast.ReturnStmt); ok {
+								errBranchReturns = true
+							}
+						}
+					}
+				}
+			case *ast.CallExpr:
+				switch f := v.Fun.(type) {
+				case *ast.Ident:
+					if f.Name == "addHeaders" {
+						srvEvents = append(srvEvents, "addHeaders")
+					} else if ctors[f.Name] {
+						srvEvents = append(srvEvents, "ctor")
+					}
+				case *ast.SelectorExpr:
+					if f.Sel.Name == "ServeHTTP" {
+						srvEvents = append(srvEvents, "serve")
+					}
+				}
+			}
+		})
+		var beforeAdd, ctorCount, serveCount uint64
+		seenAdd := false
+		for _, e := range srvEvents {
+			switch e {
+			case "addHeaders":
+				seenAdd = true
+			case "ctor":
+				ctorCount++
+				if !seenAdd {
+					beforeAdd++
+				}
+			case "serve":
+				serveCount++
+				if !seenAdd {
+					beforeAdd++
+				}
+			}
+		}
+		x.defNat("forwardingStepsBeforeAddHeaders", beforeAdd)
+		x.defNat("forwarderConstructionsInServeHTTP", ctorCount)
+		x.defNat("forwardCallsInServeHTTP", serveCount)
+		x.defBool("addHeadersErrorBranchReturns", errBranchReturns)
+
+		// ---- (3) main.go: the HTTP listeners serve an HTTPProxy built with the loaded proxy configuration -------
+		var litConfig []string
+		builders := map[string]bool{}
+		for _, f := range x.files(".") {
+			for _, d := range f.Decls {
+				fd, ok := d.(*ast.FuncDecl)
+				if !ok || fd.Body == nil {
+					continue
+				}
+				_, params, _ := x.LocalNames(fd)
+				ast.Inspect(fd.Body, func(n ast.Node) bool {
+					cl, ok := n.(*ast.CompositeLit)
+					if !ok || cl.Type == nil || x.src(cl.Type) != "proxy.HTTPProxy" {
+						return true
+					}
+					builders[fd.Name.Name] = true
+					val := "absent"
+					for _, el := range cl.Elts {
+						if kv, ok := el.(*ast.KeyValueExpr); ok && x.src(kv.Key) == "Config" {
+							val = x.src(kv.Value)
+							if se, ok := kv.Value.(*ast.SelectorExpr); ok {
+								if id, ok := se.X.(*ast.Ident); ok {
+									for i, p := range params {
+										if p == id.Name {
+											val = "param" + string(rune('0'+i)) + "." + se.Sel.Name
+										}
+									}
+								}
+							}
+						}
+					}
+					litConfig = append(litConfig, val)
+					return true
+				})
+			}
+		}
+		x.defStrList("httpProxyLiteralConfig", litConfig)
+		// every handler handed to proxy.ListenAndServeHTTP* is a local assigned from a builder called with the
+		// enclosing function's configuration parameter
+		var listenHandlers []string
+		starters := map[string]bool{}
+		for _, f := range x.files(".") {
+			for _, d := range f.Decls {
+				fd, ok := d.(*ast.FuncDecl)
+				if !ok || fd.Body == nil {
+					continue
+				}
+				assigned := map[string]string{}
+				_, fparams, _ := x.LocalNames(fd)
+				isParam := func(e ast.Expr) bool {
+					id, ok := e.(*ast.Ident)
+					if !ok {
+						return false
+					}
+					for _, p := range fparams {
+						if p == id.Name {
+							return true
+						}
+					}
+					return false
+				}
+				ast.Inspect(fd.Body, func(n ast.Node) bool {
+					switch v := n.(type) {
+					case *ast.AssignStmt:
+						if len(v.Lhs) == len(v.Rhs) {
+							for i, l := range v.Lhs {
+								if id, ok := l.(*ast.Ident); ok {
+									if call, ok := v.Rhs[i].(*ast.CallExpr); ok {
+										if fn, ok := call.Fun.(*ast.Ident); ok && builders[fn.Name] && len(call.Args) > 0 {
+											if isParam(call.Args[0]) {
+												assigned[id.Name] = "built(param)"
+											} else {
+												assigned[id.Name] = "built(" + x.src(call.Args[0]) + ")"
+											}
+										}
+									}
+								}
+							}
+						}
+					case *ast.CallExpr:
+						if strings.HasPrefix(x.src(v.Fun), "proxy.ListenAndServeHTTP") && len(v.Args) >= 2 {
+							h := "?"
+							if id, ok := v.Args[1].(*ast.Ident); ok {
+								if a, ok := assigned[id.Name]; ok {
+									h = a
+								}
+							}
+							listenHandlers = append(listenHandlers, h)
+							starters[fd.Name.Name] = true
+						}
+					}
+					return true
+				})
+			}
+		}
+		x.defStrList("httpListenerHandlers", listenHandlers)
+		// … and that function is called with the value config.Load returned
+		var starterArgs []string
+		for _, f := range x.files(".") {
+			for _, d := range f.Decls {
+				fd, ok := d.(*ast.FuncDecl)
+				if !ok || fd.Body == nil {
+					continue
+				}
+				from := map[string]string{}
+				ast.Inspect(fd.Body, func(n ast.Node) bool {
+					switch v := n.(type) {
+					case *ast.AssignStmt:
+						if len(v.Rhs) == 1 && len(v.Lhs) >= 1 {
+							if call, ok := v.Rhs[0].(*ast.CallExpr); ok {
+								if id, ok := v.Lhs[0].(*ast.Ident); ok {
+									from[id.Name] = x.src(call.Fun)
+								}
+							}
+						}
+					case *ast.CallExpr:
+						if fn, ok := v.Fun.(*ast.Ident); ok && starters[fn.Name] && len(v.Args) > 0 {
+							a := "?"
+							if id, ok := v.Args[0].(*ast.Ident); ok {
+								if src, ok := from[id.Name]; ok {
+									a = src
+								}
+							}
+							starterArgs = append(starterArgs, a)
+						}
+					}
+					return true
+				})
+			}
+		}
+		x.defStrList("httpListenersStartedWith", starterArgs)
+
+		// ---- (4) config/load.go: the options bound to the configuration fields the header code reads ------------
+		// fields read: every `<x>.<Field>` / `<x>.STSHeader.<Field>` selector in addHeaders/addResponseHeaders/ServeHTTP
+		// whose <x> is the configuration parameter (addHeaders, addResponseHeaders) or `<recv>.Config` (ServeHTTP)
+		fieldSet := map[string]bool{}
+		cfgFieldsOf := func(fd *ast.FuncDecl, isCfg func(e ast.Expr) bool) {
+			x.WalkInlined(dir, fd, func(n ast.Node) bool {
+				se, ok := n.(*ast.SelectorExpr)
+				if !ok {
+					return true
+				}
+				if isCfg(se.X) {
+					fieldSet[se.Sel.Name] = true
+				} else if in, ok := se.X.(*ast.SelectorExpr); ok && isCfg(in.X) {
+					delete(fieldSet, in.Sel.Name)
+					fieldSet[in.Sel.Name+"."+se.Sel.Name] = true
+				}
+				return true
+			})
+		}
+		cfgParam := func(fd *ast.FuncDecl) string {
+			if fd.Type.Params != nil {
+				for _, p := range fd.Type.Params.List {
+					if x.src(p.Type) == "config.Proxy" && len(p.Names) == 1 {
+						return p.Names[0].Name
+					}
+				}
+			}
+			return ""
+		}
+		for _, fd := range []*ast.FuncDecl{add, rsp} {
+			name := cfgParam(fd)
+			cfgFieldsOf(fd, func(e ast.Expr) bool { id, ok := e.(*ast.Ident); return ok && name != "" && id.Name == name })
+		}
+		var headerFields []string
+		for n := range fieldSet {
+			if n != "STSHeader" {
+				headerFields = append(headerFields, n)
+			}
+		}
+		// ServeHTTP itself reads RequestID (through <recv>.Config)
+		x.WalkInlined(dir, srv, func(n ast.Node) bool {
+			if se, ok := n.(*ast.SelectorExpr); ok && se.Sel.Name == "RequestID" {
+				if in, ok := se.X.(*ast.SelectorExpr); ok && in.Sel.Name == "Config" {
+					fieldSet["RequestID"] = true
+				}
+			}
+			return true
+		})
+		headerFields = headerFields[:0]
+		for n := range fieldSet {
+			if n != "STSHeader" {
+				headerFields = append(headerFields, n)
+			}
+		}
+		sort.Strings(headerFields)
+		x.defStrList("headerConfigFields", headerFields)
+		// bindings: f.<Kind>Var(&cfg.Proxy.<Field…>, "<option>", <default>, …) in config/load.go
+		var bindings []string
+		if ld := x.funcDecl("config", "", "load"); ld != nil {
+			ast.Inspect(ld.Body, func(n ast.Node) bool {
+				call, ok := n.(*ast.CallExpr)
+				if !ok || len(call.Args) < 3 {
+					return true
+				}
+				sel, ok := call.Fun.(*ast.SelectorExpr)
+				if !ok || !strings.HasSuffix(sel.Sel.Name, "Var") {
+					return true
+				}
+				un, ok := call.Args[0].(*ast.UnaryExpr)
+				if !ok || un.Op != token.AND {
+					return true
+				}
+				path := x.src(un.X)
+				const pfx = "cfg.Proxy."
+				if !strings.HasPrefix(path, pfx) {
+					return true
+				}
+				field := path[len(pfx):]
+				opt, _ := x.strLit(call.Args[1])
+				def := x.src(call.Args[2])
+				if fieldSet[field] {
+					dflt := "other"
+					if def == "defaultConfig.Proxy."+field {
+						dflt = "default"
+					}
+					bindings = append(bindings, opt+" -> "+field+" : "+strings.TrimSuffix(sel.Sel.Name, "Var")+" : "+dflt)
+				}
+				return true
+			})
+		}
+		sort.Strings(bindings)
+		x.defStrList("headerOptionBindings", bindings)
+		// defaults: which of those fields the defaultConfig literal sets at all
+		var defaultsSet []string
+		if e := x.valueSpec("config", "defaultConfig"); e != nil {
+			ast.Inspect(e, func(n ast.Node) bool {
+				kv, ok := n.(*ast.KeyValueExpr)
+				if !ok || x.src(kv.Key) != "Proxy" {
+					return true
+				}
+				if cl, ok := kv.Value.(*ast.CompositeLit); ok {
+					for _, el := range cl.Elts {
+						if fkv, ok := el.(*ast.KeyValueExpr); ok {
+							k := x.src(fkv.Key)
+							if fieldSet[k] || k == "STSHeader" {
+								defaultsSet = append(defaultsSet, k)
+							}
+						}
+					}
+				}
+				return false
+			})
+		}
+		sort.Strings(defaultsSet)
+		x.defStrList("headerDefaultsSet", defaultsSet)
 		return nil
 	})
 }
